@@ -317,6 +317,9 @@ func (m *LinearMinting) AmountToMint(logger log.Logger, startTime time.Time, end
 }
 
 func (m *ExponentialStepMinting) AmountToMint(logger log.Logger, startTime time.Time, endTime *time.Time, blockTime time.Time) sdk.Dec {
+	if blockTime.Before(startTime) {
+		return sdk.ZeroDec()
+	}
 	now := blockTime
 	if endTime != nil && blockTime.After(*endTime) {
 		now = *endTime
